@@ -30,6 +30,8 @@ def grid_of(code):
         return None
     if code == "N0":
         return fm.NoGrid()
+    if code in ("N1a", "N1b"):
+        return fm.NoGrid(data_shape=(3,) if code == "N1a" else (5,))
     return mg.make_grid(GRIDS[code])
 
 
@@ -46,7 +48,7 @@ def mask_of(code, gcode):
         return fm.Mask.NONE
     if code is None:
         return None
-    if gcode in (None, "N0"):
+    if gcode in (None, "N0", "N1a", "N1b"):
         return None
     if code == "rawA":
         # the *array* of mask A as laid out for grid G, reused as it is on another layout
@@ -73,7 +75,10 @@ class Src(fm.TimeComponent):
         if payload is None and oi is not None:
             # the grid was left to the consumer: publish located values in whatever grid was agreed
             g = oi.grid
-            payload = mg.encode_points(g.data_points).reshape(g.data_shape, order=g.order) if isinstance(g, fm.data.grid_base.Grid) else 7.0
+            if isinstance(g, fm.data.grid_base.Grid):
+                payload = mg.encode_points(g.data_points).reshape(g.data_shape, order=g.order)
+            else:
+                payload = np.arange(float(g.data_shape[0])) if (g.dim == 1 and g.data_shape[0] > 0) else 7.0
         self.try_connect(st, push_data={} if payload is None else {"out": payload})
 
     def _validate(self):
@@ -115,10 +120,8 @@ class Dst(fm.TimeComponent):
 def grid_compatible(a, b):
     if a is None or b is None:
         return True
-    if (a == "N0") != (b == "N0"):
-        return False
-    if a == "N0":
-        return True
+    if a.startswith("N") or b.startswith("N"):
+        return a == b  # grid-less data: same dimensionality and extents
     return GRIDS[a]["dims"] == GRIDS[b]["dims"]
 
 
@@ -154,7 +157,7 @@ class C07(Property):
 
     def gen(self, rnd, i, tier):
         def side(is_prod):
-            g = rnd.choice([None, "G", "G", "Gr", "Gf", "X", "N0"])
+            g = rnd.choice([None, "G", "G", "Gr", "Gf", "X", "N0", "N1a", "N1b"])
             return dict(
                 time=rnd.random() < 0.7,
                 grid=g,
@@ -204,22 +207,22 @@ class C07(Property):
             src_grid = pgrid
             if ada == "v2g":
                 # producer must be grid-less; adapter output grid comes from the consumer
-                if pgrid not in (None, "N0"):
+                if pgrid not in (None, "N0"):  # ValueToGrid asks its source for 0-D data
                     return "error", None, unconstrained
-                if cgrid in (None, "N0"):  # value 'to grid' onto a grid-less / unset target: degenerate, not judged
+                if cgrid in (None, "N0", "N1a", "N1b"):  # value 'to grid' onto a grid-less / unset target: degenerate, not judged
                     return "unconstrained", None, True
                 src_grid, eff_pgrid = "N0", cgrid
             elif ada == "g2v":
-                if pgrid in ("N0",):
+                if pgrid in ("N0", "N1a", "N1b"):
                     return "unconstrained", None, True
                 if pgrid is None:
                     return "error", None, unconstrained
                 if cgrid not in (None, "N0"):
-                    return "error", None, unconstrained
+                    return ("unconstrained" if cgrid in ("N1a", "N1b") else "error"), None, cgrid in ("N1a", "N1b") or unconstrained
                 eff_pgrid = "N0"
             elif ada == "regrid":
                 # the regridding adapter defines its own output mask: only the plain FLEX/FLEX case is judged here (C16)
-                if pgrid in (None, "N0") or cgrid in (None, "N0") or c["mask"] != "FLEX" or p["mask"] != "FLEX":
+                if pgrid in (None, "N0", "N1a", "N1b") or cgrid in (None, "N0", "N1a", "N1b") or c["mask"] != "FLEX" or p["mask"] != "FLEX":
                     return "unconstrained", None, True
                 eff_pgrid = cgrid
             else:
@@ -243,9 +246,10 @@ class C07(Property):
             funits = c["units"] or eunits
             # masks (on a grid-less link fixed masks cannot be expressed in this catalogue)
             pm, cm = p["mask"], c["mask"]
-            if (pm in ("A", "B") and (pgrid in (None, "N0"))) or (cm in ("A", "B", "rawA") and (cgrid in (None, "N0") and pgrid in (None, "N0"))):
+            NOG = (None, "N0", "N1a", "N1b")
+            if (pm in ("A", "B") and (pgrid in NOG)) or (cm in ("A", "B", "rawA") and (cgrid in NOG and pgrid in NOG)):
                 return "unconstrained", None, True
-            if cm in ("A", "B", "rawA") and (cgrid == "N0" or (cgrid is None and pgrid in (None, "N0"))):
+            if cm in ("A", "B", "rawA") and (cgrid in ("N0", "N1a", "N1b") or (cgrid is None and pgrid in NOG)):
                 return "unconstrained", None, True
             if cm == "rawA" and (cgrid or pgrid) not in ("G", "Gf"):
                 return "unconstrained", None, True  # raw array of other shape: constructing the Info already fails
@@ -283,7 +287,7 @@ class C07(Property):
                 payload = np.ma.array(payload, mask=located_mask(p["grid"], 0.0 if p["mask"] == "A" else 1.0))
         else:
             # a producer that leaves its grid to the consumer publishes in the consumer's grid
-            payload = None if p["grid"] is None else 7.0
+            payload = None if p["grid"] is None else (np.arange(3.0) if p["grid"] == "N1a" else (np.arange(5.0) if p["grid"] == "N1b" else 7.0))
         prod = Src("P", pinfo, payload)
         dsts = []
         for k, c in enumerate(cons):
@@ -340,7 +344,7 @@ class C07(Property):
                     return out
                 # 2. grid describes the delivered locations
                 egrid = grid_of(e["grid"])
-                if not (info.grid == egrid or (isinstance(egrid, fm.NoGrid) and isinstance(info.grid, fm.NoGrid))):
+                if not (info.grid == egrid):
                     out.viol("input_grid", f"C{k} input grid {info.grid} expected {egrid}; {tag}", spec=spec)
                     return out
                 # 3. units
